@@ -183,9 +183,9 @@ theorem View.WF.writeSliceElem_eq {sh : List Nat} {v : View} (w : v.WF sh) {s : 
     the view afterwards reads as the Python list after `for k in range(len)[slice]: l[k] = x`,
     and no cell outside the selected ones changes. -/
 theorem setitemScalar_slice_refines {h : Heap} {v : View} (w : v.WF (shape h)) (hw : v.writable = true)
-    {a b c : Option Int} (hc : ∀ y, c = some y → -PY_SSIZE_T_MAX ≤ y) {s : SliceIdx}
-    (hs : extractSliceIndices v.length (.slice a b c) = .ok s) (x : Int) :
-    ∃ h', setitemScalar h v (.slice a b c) x = .ok h' ∧ shape h' = shape h ∧ Frame v.buf h h' ∧
+    {a b c : Option Int} (hc : ∀ y, c = some y → -PY_SSIZE_T_MAX ≤ y) {s : SliceIdx} {ms : Int}
+    (hs : extractSliceIndices v.length (.slice a b c) (-1) ms = .ok s) (x : Int) :
+    ∃ h', setitemScalar h v (.slice a b c) x ms = .ok h' ∧ shape h' = shape h ∧ Frame v.buf h h' ∧
       PyList.setsliceScalar (v.toList h) a b c x = some (v.toList h') ∧
       (∀ p, (∀ i, i < s.slicelength → v.cellPos (s.at i) ≠ p) → cellAt h' v.buf p = cellAt h v.buf p) := by
   have hat : ∀ i, i < s.slicelength → s.at i < v.length := fun i hi => slice_at_lt' w.lenOk hs i hi
@@ -211,9 +211,9 @@ theorem setitemScalar_slice_refines {h : Heap} {v : View} (w : v.WF (shape h)) (
     extended-slice assignment. -/
 theorem setitemVector_slice_refines {h : Heap} {v data : View} (w : v.WF (shape h)) (wd : data.WF (shape h))
     (hw : v.writable = true) (hne : data.buf ≠ v.buf)
-    {a b c : Option Int} (hc : ∀ y, c = some y → -PY_SSIZE_T_MAX ≤ y) {s : SliceIdx}
-    (hs : extractSliceIndices v.length (.slice a b c) = .ok s) (hlen : data.length = s.slicelength) :
-    ∃ h', setitemVector h v (.slice a b c) data = .ok h' ∧ shape h' = shape h ∧ Frame v.buf h h' ∧
+    {a b c : Option Int} (hc : ∀ y, c = some y → -PY_SSIZE_T_MAX ≤ y) {s : SliceIdx} {ms : Int}
+    (hs : extractSliceIndices v.length (.slice a b c) (-1) ms = .ok s) (hlen : data.length = s.slicelength) :
+    ∃ h', setitemVector h v (.slice a b c) data ms = .ok h' ∧ shape h' = shape h ∧ Frame v.buf h h' ∧
       PyList.setsliceVector (v.toList h) a b c (data.toList h) = some (v.toList h') ∧
       (∀ p, (∀ i, i < s.slicelength → v.cellPos (s.at i) ≠ p) → cellAt h' v.buf p = cellAt h v.buf p) := by
   have hat : ∀ i, i < s.slicelength → s.at i < v.length := fun i hi => slice_at_lt' w.lenOk hs i hi
@@ -333,8 +333,8 @@ theorem setitemVectorMask_same_refines {h : Heap} {v mask data : View} (w : v.WF
 
 /-- length mismatch in `a[slice] = b`: `IndexError`, and (being an error) nothing is written -/
 theorem setitemVector_length_error {h : Heap} {v data : View} (hw : v.writable = true) {idx : PyIdx} {s : SliceIdx}
-    (hs : extractSliceIndices v.length idx = .ok s) (hlen : data.length ≠ s.slicelength) :
-    setitemVector h v idx data = .error .srcDimMismatch := by
+    {ms : Int} (hs : extractSliceIndices v.length idx (-1) ms = .ok s) (hlen : data.length ≠ s.slicelength) :
+    setitemVector h v idx data ms = .error .srcDimMismatch := by
   unfold setitemVector
   simp [hw, hs, hlen]
 
@@ -398,20 +398,23 @@ theorem ifelse_getElem {choice l other : List Int} {n : Nat} (h1 : choice.length
 /-- **`a.ifelse(choice, other)`** on a WRITABLE array (see `ifelse_readonly_quirk` for read-only ones):
     a fresh array `[a[i] if choice[i] else other[i]]` -/
 theorem ifelseVector_refines {h : Heap} {v choice other : View} (w : v.WF (shape h)) (wc : choice.WF (shape h))
-    (wo : other.WF (shape h)) (hw : v.writable = true) (hl1 : choice.length = v.length)
+    (wo : other.WF (shape h)) {cr : Bool} (hw : cr = true ∨ v.writable = true) (hl1 : choice.length = v.length)
     (hl2 : other.length = v.length) :
-    ∃ h' f, ifelseVector h v choice other = .ok (h', f) ∧
+    ∃ h' f, ifelseVector h v choice other cr = .ok (h', f) ∧
       f.toList h' = PyList.ifelse (choice.toList h) (v.toList h) (other.toList h) ∧
       f.WF (shape h') ∧ f.buf = h.length ∧ (∃ vals, h' = h ++ [vals]) := by
   let g : Nat → Int := fun i =>
     if cellAt h choice.buf (choice.cellPos i) != 0 then cellAt h v.buf (v.cellPos i)
     else cellAt h other.buf (other.cellPos i)
-  have hread : mapE (v.chooseFrom h choice other) (List.range v.length) = .ok ((List.range v.length).map g) := by
+  have hread : mapE (v.chooseFrom h choice other cr) (List.range v.length) = .ok ((List.range v.length).map g) := by
     apply mapE_ok_of_forall
     intro i hi
     have hi' : i < v.length := by simpa using hi
-    simp only [View.chooseFrom, wc.get (by omega : i < choice.length), View.getNonConst, hw, Bool.not_true,
-      Bool.false_eq_true, if_false, w.get hi', wo.get (by omega : i < other.length), g]
+    have hrd : (if cr then v.get h i else v.getNonConst h i) = .ok (cellAt h v.buf (v.cellPos i)) := by
+      rcases hw with hcr | hwr
+      · simp [hcr, w.get hi']
+      · cases cr <;> simp [View.getNonConst, hwr, w.get hi']
+    simp only [View.chooseFrom, wc.get (by omega : i < choice.length), hrd, wo.get (by omega : i < other.length), g]
     split <;> rfl
   have hlen : (((List.range v.length).map g).length : Int) ≤ PY_SSIZE_T_MAX := by
     simpa using w.lenOk
